@@ -240,6 +240,23 @@ impl FailSafe {
         // `CommissioningComplete`). `Sessions::remove_pase` keeps
         // `expire_sess_id` alive (marked expired) so any in-flight
         // response can complete.
+        // A fabric the rollback removed (the not-yet-committed `AddNOC` one) takes every
+        // secure session bound to its index with it - CASE sessions established on it while
+        // the fail-safe was armed included. Otherwise such a session would still be there when
+        // a later `AddNOC` re-uses the index, and would then be evaluated against the ACL of
+        // the NEW fabric. The triggering session, if it is one of them, is only marked as
+        // expired, so that the response can still be sent. (The resumption records of the
+        // fabric are dropped by the callers, see `MatterState::purge_resumption_for_fabric`.)
+        if let Some(fab_idx) = removed_fabric {
+            let own_sess_id = expire_sess_id.filter(|id| {
+                sessions
+                    .iter()
+                    .any(|sess| sess.id() == *id && sess.get_local_fabric_idx() == fab_idx.get())
+            });
+
+            sessions.remove_for_fabric(fab_idx, own_sess_id);
+        }
+
         sessions.remove_pase(expire_sess_id);
 
         self.state = State::Idle;
